@@ -48,6 +48,13 @@ def write_cfg(name, ni, delays=(0, 2, 3, 4, 5), delays2=(0, 3, 5), late=(1, 2, 3
     return name
 
 
+def rm(cfg):
+    try:
+        os.remove(os.path.join(SPEC, cfg))
+    except FileNotFoundError:
+        pass
+
+
 def scripts_of(r):
     out, seen = [], set()
     for s in r.printed:
@@ -224,34 +231,34 @@ def run():
         "sub-second values as 0; an unset (zero) interval / timeout is replaced by the defaults 10 s / 1 s before announcing",
         "recovery bound: the first redial attempt of internal/retry is immediate; after n failed attempts the back-off is "
         "100 ms * 2^n * [0.5, 1.5) -> bound = 1.5 * sum of maximal sleeps + 250 ms",
-        "SpuriousClose is judged only when the harness's stall detector (2 ms sleeper, 10 ms overshoot) saw no scheduling stall "
-        "(the property's 'scheduling slack'); the stall count is reported in the clause statistics",
+        "a client-side close is excused as 'scheduling slack' only when the harness's stall detector (2 ms sleeper, overshoot > 10 ms) "
+        "recorded a stall between 3T before and 50 ms after that close; the stall count is reported in the clause statistics",
     ]
     # ---- L1: exhaustive, per interval (I < T, I = T, I > T), exact boundary delays
     for ni in ([4, 8] if quick else [2, 4, 6, 8, 12]):
-        cfg = write_cfg("Keepalive_x%d.cfg" % ni, ni, horizon=40 if ni > 2 else 28)
+        cfg = write_cfg("Keepalive_run_x%d.cfg" % ni, ni, horizon=40 if ni > 2 else 28)
         ctx.l1("Keepalive", cfg, timeout=600)
-        os.remove(os.path.join(SPEC, cfg))
-    cfg = write_cfg("Keepalive_live.cfg", 4, delays=(0, 3, 4, 5), delays2=(0, 5), late=(1, 2), maxconn=3, horizon=16, bat=(1,), bids=(7,),
+        rm(cfg)
+    cfg = write_cfg("Keepalive_run_live.cfg", 4, delays=(0, 3, 4, 5), delays2=(0, 5), late=(1, 2), maxconn=3, horizon=16, bat=(1,), bids=(7,),
                     maxb=1, aat=(), maxapp=0, mode="live")
     ctx.l1("Keepalive", cfg, timeout=600)
-    os.remove(os.path.join(SPEC, cfg))
+    rm(cfg)
     # sensitivity of the model (design variants must be rejected by the invariant named)
     sens = [("restartTicker", "DetectFromLastAnsweredPing"), ("noTimeout", "DetectWithinBound"), ("noClose", "DetectWithinBound"),
             ("freshPongId", "PongEchoesId")]
     for variant, inv in (sens[:1] if quick else sens):
-        cfg = write_cfg("Keepalive_sens_%s.cfg" % variant, 8, variant=variant)
+        cfg = write_cfg("Keepalive_run_sens_%s.cfg" % variant, 8, variant=variant)
         r = ctx.tlc("Keepalive", cfg, timeout=600)
-        os.remove(os.path.join(SPEC, cfg))
+        rm(cfg)
         if r.violated != inv:
             raise Inconclusive("sensitivity: variant %s should violate %s, TLC says %s" % (variant, inv, r.violated or r.error or "no error"))
         log("[C15] L1 sensitivity: variant %s violates %s as expected" % (variant, inv))
     # ---- scripts: every complete behaviour of the generator configuration (real delays only, k in {0, 1, 3})
     NI, HZ = 8, 36
-    gcfg = write_cfg("Keepalive_gen.cfg", NI, delays=(0, 2, 12), delays2=(0,), late=(1, 2, 4), lateconns=(1,), anytime=False, horizon=HZ,
+    gcfg = write_cfg("Keepalive_run_gen.cfg", NI, delays=(0, 2, 12), delays2=(0,), late=(1, 2, 4), lateconns=(1,), anytime=False, horizon=HZ,
                      bat=(1, 10), bids=(CUR, 7), maxb=1, aat=(9,), maxapp=1, mode="gen")
     r = ctx.tlc("Keepalive", gcfg, workers=1, timeout=600)
-    os.remove(os.path.join(SPEC, gcfg))
+    rm(gcfg)
     if r.violated or r.error:
         raise Inconclusive("script generation failed: %s" % (r.violated or r.error))
     scripts = scripts_of(r)
@@ -301,7 +308,7 @@ def run():
     averdicts, _ = ctx.validate(atrace, "MonC15")
     ctx.judge(ascs, atrace, averdicts)
     cl = ctx.cov["clauses"]
-    if not (cl.get("detectedInTime") and cl.get("liveIncs") and cl.get("bpongs") and cl.get("recovered") and cl.get("announces")):
+    if not ctx.violations and not (cl.get("detectedInTime") and cl.get("liveIncs") and cl.get("bpongs") and cl.get("recovered") and cl.get("announces")):
         raise Inconclusive("vacuous run: %s" % json.dumps(cl))
     ctx.finish(rule="L1: Keepalive.tla exhaustive for I in {T/2, T, 1.5T, 2T, 3T} with pong delays {0, T/2, T-1, T, T+1 tick, never}, silence at any "
                     "instant, broker pings with colliding ids, application requests; scenarios = every complete environment script of the "
@@ -309,7 +316,7 @@ def run():
                     "[quick: all dead-peer pong patterns + seed-selected sample], plus live windows of 10 intervals under application "
                     "traffic, silence at scripted moments (pong-only / total, idle / request in flight), failing redials, broker ping "
                     "bursts, announcement configurations; non-trivial = monitor verdict produced, vacuity guarded by clause statistics",
-               exhaustive=not quick)
+               exhaustive=False)
 
 
 if __name__ == "__main__":
